@@ -21,7 +21,8 @@ What is looked for (all .cc/.h/.hpp/.C/.ll/.yy files under src):
   defined in src, constructor arguments of classes whose constructor reads a root) down to the statements that consume
   the value: output on stderr / stdout / another stream, comparison, anything else;
   libc rand()/srand() and <random> engines with the way they are seeded; getenv; thread creation.
-Judgement calls live in translate/repro_allowlist.txt (keyed by kind | function | identifier), nowhere else.
+Judgement calls live in translate/repro_allowlist.txt (kind | function | identifier | attribute | justification), nowhere else.
+`python3 translate/repro_facts.py --list` prints every fact with its source line and the stale allowlist entries.
 """
 import os
 import re
